@@ -45,6 +45,10 @@ def run(run: Run, pkg: Package) -> None:
             check_text_reader(run, pkg, "read_lammps_centertype", ndim, style, wl[ndim])
         check_text_reader(run, pkg, "read_lammps_vector", ndim, "x", wl[ndim])
         check_text_reader(run, pkg, "read_lammps", ndim, "x", wl[ndim], light=True)
+    # frame loops of the auxiliary readers (shared rule with C01): append in read order, count, sentinel, one handle
+    from .c01 import check_wrapper
+    for w, inner in (("read_lammps_centertype_wrapper", "read_lammps_centertype"), ("read_lammps_vector_wrapper", "read_lammps_vector")):
+        check_wrapper(run, pkg, w, inner)
     check_dict_order(run, pkg)
     check_additions(run, pkg, wl[3])
     check_gsd(run, pkg, "read_gsd", dcd=False)
@@ -654,6 +658,8 @@ def check_gsd(run, pkg, fname, dcd):
     for k, (w, what) in want.items():
         got = kws.get(k)
         ok = eqv(got, w)
+        if ok is None and got is not None and k == "particle_type":
+            ok = eqv(strip_casts(strip_alloc(got)), w)       # integer conversions of the id array keep its values
         run.ob("R-IDX" if k == "particle_type" else "R-ALG", fq, k, ok, what, show(got)[:70] if got else "missing",
                witness=None if ok else ("typeid 0 stays 0: every per-type table indexed with type - 1 reads row -1" if k == "particle_type" else f"{k} taken from another field"), loc=loc_of(it, ce), sound=True)
     hm = kws.get("hmatrix")
@@ -787,6 +793,64 @@ def check_log(run, pkg):
     sep = kw(c, "sep")
     run.ob("R-PROTO", fq, "whitespace", tri_lazy(lambda: (True if (bool(okf)) else None), lambda: eqv(sep, C(r"\s+"))), "sections are parsed from the same file with whitespace-separated columns", show(sep) if sep else "default",
            witness=None if okf and sep == C(r"\s+") else "columns not split on whitespace", loc=loc_of(it, rc[0]), sound=True)
+    # a section may be skipped only when it holds no thermo line: any guard under which the section's read is not reached
+    # is evaluated as a function of D = (line of `Loop time of`) - (line of `Step `) for D = 2..6 (1..5 data rows)
+    D_ = sp.Symbol("D", integer=True)
+
+    def norm_guard(c_):
+        """short, stable rendering of a section test: marker-line arrays shown by role"""
+        def fn(x):
+            if x[0] == "sub" and x[2] == i:
+                mk_ = marker_list(x[1])
+                if mk_ == "Step ":
+                    return ("sym", "start[i]")
+                if mk_ == "Loop time of ":
+                    return ("sym", "end[i]")
+            return None
+        return show(subst(c_, fn))[:60]
+
+    def at_skip(t):
+        if t[0] == "sub" and t[2] == i:
+            mk_ = marker_list(t[1])
+            if mk_ == "Step ":
+                return sp.Symbol("start", integer=True)
+            if mk_ == "Loop time of ":
+                return sp.Symbol("start", integer=True) + D_
+            if t[1][0] == "bin" and t[1][1] == "-":
+                # linenum = end - start - 1 as an array
+                try:
+                    tr2 = S.Translator(lambda y: (sp.Symbol("start", integer=True) if marker_list(y) == "Step " else (sp.Symbol("start", integer=True) + D_ if marker_list(y) == "Loop time of " else None)))
+                    tr2.ufuncs = False
+                    e2 = tr2.tr(t[1])
+                    if not tr2.atoms:
+                        return e2
+                except Exception:  # noqa
+                    return None
+        return None
+    for c_, pol in rc[0].guards:
+        if not any(x == i for x in walk(c_)):
+            continue
+        try:
+            trs = S.Translator(at_skip)
+            trs.ufuncs = False
+            from ..concrete import ev as cev
+            g_ = trs.rel(c_)
+            if g_ is None or trs.atoms:
+                raise ValueError("opaque")
+            badD = None
+            for dv in range(2, 7):
+                val = g_.subs({D_: dv, sp.Symbol("start", integer=True): 7})
+                if val not in (sp.true, sp.false):
+                    raise ValueError("undecided")
+                if bool(val) != pol:
+                    badD = dv
+                    break
+            oksk = badD is None
+            run.ob("R-LOOPDOM", fq, f"skip-guard:{'not ' if not pol else ''}{norm_guard(c_)}", True if oksk else False, "a complete section with at least one thermo line is never skipped",
+                   f"the section's read is reached only when {show(c_)[:70]} is {pol}", witness=None if oksk else
+                   f"`Step ` at line 7, `Loop time of ` at line {7 + badD}: the section holds {badD - 1} thermo line(s) but the test skips it; later sections shift position", loc=loc_of(it, rc[0]), sound=True)
+        except Exception:  # noqa
+            run.ob("R-LOOPDOM", fq, f"skip-guard:{'not ' if not pol else ''}{norm_guard(c_)}", None, "a complete section with at least one thermo line is never skipped", f"guard not evaluable: {show(c_)[:80]}", loc=loc_of(it, rc[0]))
     app = [e for e in it.events if e.kind == "call" and e.data["call"][1] == ".append" and e.loops == rc[0].loops and e.data["call"][2][1] == rc[0].data["result"]]
     ret = it.returns[0].data["value"] if it.returns else None
     okr = len(app) == 1 and ret is not None and ret[0] == "appended" and ret[2] == rc[0].data["result"]
